@@ -21,6 +21,17 @@ type vSession struct {
 	cliNoise *NoiseGrpcConn
 	ctx      context.Context
 	cancel   func()
+	stopped  bool
+}
+
+// stop shuts the listener down and cancels the client context, once.
+func (s *vSession) stop() {
+	if s.stopped {
+		return
+	}
+	s.stopped = true
+	s.srv.Close()
+	s.cancel()
 }
 
 // vNewSession builds the real mailbox Server and Client on top of the
@@ -38,6 +49,9 @@ func vNewSession(budget int, auth []byte) *vSession {
 	sid, err := s.srvData.SID()
 	vAssert(err == nil, "SID failed")
 	s.relay = newRelay(sid, budget)
+	if budget > 0 {
+		s.relay.skip = vIntRange("relay_skip", 0, vParam("maxskip", 0))
+	}
 	sctx, scancel := context.WithCancel(s.ctx)
 	s.srv = &Server{serverHost: "relay", client: s.relay, connData: s.srvData, sid: sid, quit: make(chan struct{}), ctx: sctx, cancel: scancel, log: log}
 	s.cli, err = NewClient(s.ctx, "relay", s.cliData, func(c *Client) { c.grpcClient = s.relay })
@@ -53,15 +67,25 @@ type vConnResult struct {
 }
 
 // connect runs Accept + ServerHandshake and Dial + ClientHandshake concurrently.
+// Once one party has failed, the other one is given horizon_s virtual seconds:
+// Accept and Dial wait for a peer by design (the peer's next attempt finds
+// them), so a party still there is told to stop and must then return; a party
+// that is past Accept/Dial runs under the handshake deadlines and must have
+// returned by itself.
 func (s *vSession) connect() (srv, cli vConnResult) {
 	sc, cc := make(chan vConnResult, 1), make(chan vConnResult, 1)
+	srvUp, cliUp := make(chan struct{}), make(chan struct{})
 	go func() {
 		c, err := s.srv.Accept()
 		if err != nil {
 			sc <- vConnResult{nil, err}
 			return
 		}
+		close(srvUp)
 		nc, _, err := s.srvNoise.ServerHandshake(c)
+		if err != nil {
+			c.Close() // as gRPC does with a connection whose handshake failed
+		}
 		sc <- vConnResult{nc, err}
 	}()
 	go func() {
@@ -70,10 +94,47 @@ func (s *vSession) connect() (srv, cli vConnResult) {
 			cc <- vConnResult{nil, err}
 			return
 		}
+		close(cliUp)
 		nc, _, err := s.cliNoise.ClientHandshake(s.ctx, "", c)
+		if err != nil {
+			c.Close()
+		}
 		cc <- vConnResult{nc, err}
 	}()
-	return <-sc, <-cc
+	var (
+		srvDone, cliDone bool
+		giveUp           <-chan time.Time
+	)
+	for !srvDone || !cliDone {
+		select {
+		case srv = <-sc:
+			srvDone = true
+		case cli = <-cc:
+			cliDone = true
+		case <-giveUp:
+			up := cliUp
+			if !srvDone {
+				up = srvUp
+			}
+			select {
+			case <-up:
+				vAssert(false, "one party failed, the other one hangs inside the deadline-guarded Noise handshake")
+			default:
+			}
+			vReach("peer-still-waiting")
+			s.stop()
+			if !srvDone {
+				srv = <-sc
+			} else {
+				cli = <-cc
+			}
+			return srv, cli
+		}
+		if giveUp == nil && ((srvDone && srv.err != nil) || (cliDone && cli.err != nil)) {
+			giveUp = time.After(time.Duration(vParam("horizon_s", 300)) * time.Second)
+		}
+	}
+	return srv, cli
 }
 
 // VH_C05_Composite: the whole stack minus gRPC: real mailbox Server/Client,
@@ -87,28 +148,64 @@ func VH_C05_Composite() {
 	auth := vBytes("auth", 3)
 	s := vNewSession(vParam("faults", 0), auth)
 	srv, cli := s.connect()
-	vAssert(srv.err == nil && cli.err == nil, "connection through the relay could not be established although faults ceased")
 	if srv.err != nil || cli.err != nil {
+		// A relay fault during the (deadline-guarded) handshakes may fail the
+		// attempt: that is the "fails visibly" outcome, gRPC dials again. The
+		// party that believes it is connected must not hang though.
+		vReach("attempt-failed-visibly")
+		vAssert(vParam("faults", 0) > 0, "connection through a fault-free relay could not be established")
+		for _, r := range []vConnResult{srv, cli} {
+			if r.err != nil || r.conn == nil {
+				continue
+			}
+			failed := make(chan bool, 1)
+			c := r.conn
+			go func() {
+				buf := make([]byte, 4)
+				_, err := c.Read(buf)
+				failed <- err != nil
+			}()
+			select {
+			case f := <-failed:
+				vAssert(f, "a party read data although its peer's handshake failed")
+			case <-time.After(time.Duration(vParam("horizon_s", 300)) * time.Second):
+				vAssert(false, "one party failed the handshake, the other one hangs (no visible failure)")
+			}
+		}
+		s.stop()
 		return
 	}
 	vReach("connected")
 	up := vBytes("up", vIntRange("uplen", 1, vParam("maxwrite", 3)))
 	down := vBytes("down", vIntRange("downlen", 1, vParam("maxwrite", 3)))
-	done := make(chan bool, 2)
+	// 0: intact, 1: bytes differ, 2: the connection failed visibly (error).
+	done := make(chan int, 2)
+	cmp := func(ok bool) int {
+		if ok {
+			return 0
+		}
+		return 1
+	}
 	go func() {
 		n, err := cli.conn.Write(up)
-		vAssert(err == nil && n == len(up), "client Write failed")
+		if err != nil {
+			cli.conn.Close() // an application drops a failed connection
+			done <- 2
+			return
+		}
+		vAssert(n == len(up), "client Write reported a short count without an error")
 		buf := make([]byte, 16)
 		got := 0
 		for got < len(down) {
 			k, err := cli.conn.Read(buf[got:])
 			if err != nil {
-				done <- false
+				cli.conn.Close() // an application drops a failed connection
+				done <- 2
 				return
 			}
 			got += k
 		}
-		done <- got == len(down) && vBytesEq(buf[:got], down)
+		done <- cmp(got == len(down) && vBytesEq(buf[:got], down))
 	}()
 	go func() {
 		buf := make([]byte, 16)
@@ -116,25 +213,45 @@ func VH_C05_Composite() {
 		for got < len(up) {
 			k, err := srv.conn.Read(buf[got:])
 			if err != nil {
-				done <- false
+				srv.conn.Close()
+				done <- 2
 				return
 			}
 			got += k
 		}
 		ok := got == len(up) && vBytesEq(buf[:got], up)
 		n, err := srv.conn.Write(down)
-		vAssert(err == nil && n == len(down), "server Write failed")
-		done <- ok
-	}()
-	timeout := time.After(time.Duration(vParam("horizon_s", 300)) * time.Second)
-	for i := 0; i < 2; i++ {
-		select {
-		case ok := <-done:
-			vAssert(ok, "bytes read from the secured connection differ from the bytes written on the other side")
-		case <-timeout:
-			vAssert(false, "transfer did not complete after relay faults ceased")
+		if err != nil {
+			srv.conn.Close()
+			done <- 2
 			return
 		}
+		vAssert(n == len(down), "server Write reported a short count without an error")
+		done <- cmp(ok)
+	}()
+	timeout := time.After(time.Duration(vParam("horizon_s", 300)) * time.Second)
+	failed := false
+	for i := 0; i < 2; i++ {
+		select {
+		case r := <-done:
+			vAssert(r != 1, "bytes read from the secured connection differ from the bytes written on the other side")
+			if r == 2 {
+				// "fails visibly" is an allowed outcome once the relay
+				// misbehaved, never on a fault-free relay.
+				vAssert(vParam("faults", 0) > 0, "the connection failed although the relay never misbehaved")
+				failed = true
+			}
+		case <-timeout:
+			vAssert(false, "transfer neither completed nor failed visibly after relay faults ceased")
+			return
+		}
+	}
+	if failed {
+		vReach("failed-visibly")
+		cli.conn.Close()
+		srv.conn.Close()
+		s.stop()
+		return
 	}
 	vReach("transferred")
 	for _, m := range s.relay.seen {
@@ -142,6 +259,5 @@ func VH_C05_Composite() {
 	}
 	cli.conn.Close()
 	srv.conn.Close()
-	s.srv.Close()
-	s.cancel()
+	s.stop()
 }
